@@ -431,14 +431,21 @@ theorem srcMuxOk_of (A : PE) : ∀ t, (∀ s, s ∈ srcMuxes t → A.switches[s]
     exact ⟨⟨h s (by simp [srcMuxes]), srcMuxOk_of A l (fun x hx => h x (by simp [srcMuxes, hx]))⟩,
       srcMuxOk_of A r (fun x hx => h x (by simp [srcMuxes, hx]))⟩
 
-theorem Inv.wf {A : PE} (h : Inv A) : A.wf = true := by
+/-- every choose op offers at most one operation per class -/
+def CU (A : PE) : Prop := ∀ (j : Nat) (n : Node), A.nodes[j]? = some n → ClassFun n.ops
+
+/-- all offered operations come from `S` -/
+def OpsIn (S : List OpCode) (A : PE) : Prop :=
+  ∀ (j : Nat) (n : Node), A.nodes[j]? = some n → ∀ o, o ∈ n.ops → o ∈ S
+
+theorem Inv.wf {A : PE} (h : Inv A) (hcu : CU A) : A.wf = true := by
   simp only [PE.wf, Bool.and_eq_true, List.all_eq_true]
   refine ⟨⟨⟨h.uniq, ?_⟩, ?_⟩, ?_⟩
   · intro n hn
     obtain ⟨j, hj, hjn⟩ := List.getElem_of_mem hn
     have hnj : A.nodes[j]? = some n := by rw [List.getElem?_eq_getElem hj, hjn]
     simp only [nodeOk, Bool.and_eq_true, List.all_eq_true, Bool.not_eq_true', List.isEmpty_eq_false_iff]
-    refine ⟨h.ops j n hnj, fun t ht => ?_⟩
+    refine ⟨⟨h.ops j n hnj, fun t ht => ?_⟩, (classFun_iff _).mpr (hcu j n hnj)⟩
     obtain ⟨p, hp, hpt⟩ := List.getElem_of_mem ht
     apply srcMuxOk_of
     exact h.slots.muxok (some j) p t (by simp [PE.slot, hnj, List.getElem?_eq_getElem hp, hpt])
@@ -448,34 +455,75 @@ theorem Inv.wf {A : PE} (h : Inv A) : A.wf = true := by
     simp only [nodeSwOk, List.getElem?_eq_getElem hj', decide_eq_true_eq]
     exact h.swOk j _ (List.getElem?_eq_getElem hj')
 
-theorem insertOps_mem (o : OpCode) : ∀ (new cur : List OpCode), o ∈ insertOps cur new ↔ o ∈ cur ∨ o ∈ new
-  | [], cur => by simp [insertOps]
-  | x :: r, cur => by
+theorem hasClass_iff (cur : List OpCode) (c : String) : hasClass cur c = true ↔ ∃ x, x ∈ cur ∧ x.cls = c := by
+  simp [hasClass, List.any_eq_true]
+
+theorem insertOps_left (o : OpCode) : ∀ (new cur : List OpCode), o ∈ cur → o ∈ insertOps cur new
+  | [], _, h => h
+  | x :: r, cur, h => by
     simp only [insertOps]
-    rw [insertOps_mem o r]
-    by_cases hc : cur.contains x = true
-    · rw [if_pos hc]
-      have hx : x ∈ cur := by simpa using hc
-      simp only [List.mem_cons]
-      constructor
-      · rintro (h | h)
-        · exact .inl h
-        · exact .inr (.inr h)
-      · rintro (h | h | h)
-        · exact .inl h
-        · exact .inl (h ▸ hx)
-        · exact .inr h
-    · rw [if_neg hc]
-      simp only [List.mem_append, List.mem_cons, List.not_mem_nil, or_false]
-      constructor
-      · rintro ((h | h) | h)
-        · exact .inl h
-        · exact .inr (.inl h)
-        · exact .inr (.inr h)
-      · rintro (h | h | h)
-        · exact .inl (.inl h)
-        · exact .inl (.inr h)
-        · exact .inr h
+    apply insertOps_left o r
+    split
+    · exact h
+    · exact List.mem_append_left _ h
+
+theorem insertOps_sub (o : OpCode) : ∀ (new cur : List OpCode), o ∈ insertOps cur new → o ∈ cur ∨ o ∈ new
+  | [], _, h => .inl h
+  | x :: r, cur, h => by
+    simp only [insertOps] at h
+    rcases insertOps_sub o r _ h with h' | h'
+    · split at h'
+      · exact .inl h'
+      · rcases List.mem_append.mp h' with h'' | h''
+        · exact .inl h''
+        · simp at h''; exact .inr (by simp [h''])
+    · exact .inr (by simp [h'])
+
+/-- an operation of `new` is offered afterwards unless an operation of its class with OTHER attributes is
+there already (in `cur`, or earlier in `new`) -/
+theorem insertOps_right (o : OpCode) : ∀ (new cur : List OpCode), o ∈ new →
+    (∀ c, c ∈ cur → c.cls = o.cls → c = o) → (∀ c, c ∈ new → c.cls = o.cls → c = o) → o ∈ insertOps cur new
+  | [], _, h, _, _ => by simp at h
+  | x :: r, cur, h, hc, hn => by
+    simp only [insertOps]
+    by_cases hx : x = o
+    · subst hx
+      apply insertOps_left
+      split
+      next hh =>
+        obtain ⟨c, hcm, hcc⟩ := (hasClass_iff _ _).mp hh
+        exact hc c hcm hcc ▸ hcm
+      · exact List.mem_append_right _ (by simp)
+    · have hor : o ∈ r := by
+        rcases List.mem_cons.mp h with h | h
+        · exact absurd h.symm hx
+        · exact h
+      apply insertOps_right o r _ hor
+      · intro c hcm hcc
+        split at hcm
+        · exact hc c hcm hcc
+        · rcases List.mem_append.mp hcm with h' | h'
+          · exact hc c h' hcc
+          · simp at h'; subst h'; exact hn c (by simp) hcc
+      · exact fun c hcm hcc => hn c (by simp [hcm]) hcc
+
+theorem insertOps_classFun : ∀ (new cur : List OpCode), ClassFun cur → ClassFun (insertOps cur new)
+  | [], _, h => h
+  | x :: r, cur, h => by
+    simp only [insertOps]
+    apply insertOps_classFun r
+    split
+    · exact h
+    next hh =>
+      have hno : ∀ c, c ∈ cur → c.cls ≠ x.cls := by
+        intro c hc hcc
+        exact hh ((hasClass_iff _ _).mpr ⟨c, hc, hcc⟩)
+      intro o o' ho ho' hcc
+      rcases List.mem_append.mp ho with h1 | h1 <;> rcases List.mem_append.mp ho' with h2 | h2
+      · exact h o o' h1 h2 hcc
+      · simp at h2; subst h2; exact absurd hcc (hno o h1)
+      · simp at h1; subst h1; exact absurd hcc.symm (hno o' h2)
+      · simp at h1 h2; rw [h1, h2]
 
 theorem leafOf_ext {N : Nat} {A A' : PE} (h : Ext N A A') {t : Src} {l : Leaf} (hl : A.leafOf t = some l) :
     A'.leafOf t = some l := by
@@ -521,7 +569,11 @@ structure StepOk (G A A' : PE) (g : Node) : Prop where
   inv : Inv A'
   ext : Ext A.switches.length A A'
   route : NodeRoutable A' G g
-  cov : coversNode A' g = true
+  /-- the merged choose op is covered PROVIDED no operation of the same class with other attributes is in
+  play (all operations come from a set `S` in which the class determines the operation) -/
+  cov : ∀ S : List OpCode, ClassFun S → OpsIn S A → (∀ o, o ∈ g.ops → o ∈ S) → coversNode A' g = true
+  opsIn : ∀ S : List OpCode, OpsIn S A → (∀ o, o ∈ g.ops → o ∈ S) → OpsIn S A'
+  cu : CU A → ClassFun g.ops → CU A'
 
 theorem step_new {G A : PE} {g : Node} {owners : List Src} (hinv : Inv A) (hg : g.ops ≠ [])
     (hlk : A.lookup g.id = none) (hown : mapExcept (equivOwner G A A.nArgs) g.operands = .ok owners) :
@@ -557,7 +609,16 @@ theorem step_new {G A : PE} {g : Node} {owners : List Src} (hinv : Inv A) (hg : 
     rw [findId_append]
     have : findId g.id A.nodes 0 = none := hlk
     rw [this]; simp [n]
-  refine ⟨⟨?_, ?_, ?_, ?_, ?_⟩, hext, ?_, ?_⟩
+  have hnodeCases : ∀ (j : Nat) (n0 : Node), (A.nodes ++ [n])[j]? = some n0 → A.nodes[j]? = some n0 ∨ n0 = n := by
+    intro j n0 hn0
+    have hj : j < (A.nodes ++ [n]).length := lt_of_getElem? hn0
+    simp only [List.length_append, List.length_cons, List.length_nil] at hj
+    by_cases hjl : j < A.nodes.length
+    · left; rw [← hnodeOld j hjl]; exact hn0
+    · have : j = A.nodes.length := by omega
+      subst this
+      rw [hnodeNew] at hn0; injection hn0 with hn0; exact .inr hn0.symm
+  refine ⟨⟨?_, ?_, ?_, ?_, ?_⟩, hext, ?_, ?_, ?_, ?_⟩
   · exact uniqueIds_append hinv.uniq hlk
   · intro j n0 hn0
     have hj : j < (A.nodes ++ [n]).length := lt_of_getElem? hn0
@@ -617,7 +678,15 @@ theorem step_new {G A : PE} {g : Node} {owners : List Src} (hinv : Inv A) (hg : 
   · have : coversNode (addNode A n) g = true := by
       simp only [coversNode, hlookNew, addNode_nodes, hnodeNew]
       simp [n]
-    exact this
+    exact fun _ _ _ _ => this
+  · intro S hA hgS j n0 hn0
+    rcases hnodeCases j n0 hn0 with h | h
+    · exact hA j n0 h
+    · subst h; exact hgS
+  · intro hcu hgc j n0 hn0
+    rcases hnodeCases j n0 hn0 with h | h
+    · exact hcu j n0 h
+    · subst h; exact hgc
 
 theorem swt_replicate {A : PE} (hswt : SwT A) {A' : PE} {k : Nat}
     (hsw : A'.switches = A.switches ++ List.replicate k .mux)
@@ -659,12 +728,12 @@ theorem step_old {G A : PE} {g a : Node} {ai : Nat} {opnds : List Src} {ns : Nat
       · subst hj
         rw [ha] at hn0; injection hn0 with hn0; subst hn0
         refine ⟨n', by rw [hnode]; simp, hid', ?_, by rw [hopnds']; exact hrel.length, ?_⟩
-        · intro o ho; rw [hops']; exact (insertOps_mem o _ _).mpr (.inl ho)
+        · intro o ho; rw [hops']; exact insertOps_left o _ _ ho
         · intro p t ht; rw [hopnds']; exact hrel.wraps p t ht
       · exact ⟨n0, by rw [hnode, if_neg hj]; exact hn0, rfl, fun _ h => h, rfl, fun p t ht => ⟨t, ht, .refl _⟩⟩
   have hlook : (setNode A ai n' (ns - A.switches.length)).lookup g.id = some ai := hext.lookup _ _ hlk
   have hnodeAi : (setNode A ai n' (ns - A.switches.length)).nodes[ai]? = some n' := by rw [hnode]; simp
-  refine ⟨⟨?_, ?_, ?_, ?_, ?_⟩, hext, ?_, ?_⟩
+  refine ⟨⟨?_, ?_, ?_, ?_, ?_⟩, hext, ?_, ?_, ?_, ?_⟩
   · show uniqueIds (A.nodes.set ai n') = true
     rw [uniqueIds_ids_congr _ A.nodes (ids_set_same ha hid')]; exact hinv.uniq
   · intro j n0 hn0
@@ -677,7 +746,7 @@ theorem step_old {G A : PE} {g a : Node} {ai : Nat} {opnds : List Src} {ns : Nat
       | nil => exact absurd hao hane
       | cons o r =>
         intro hnil
-        have : o ∈ insertOps (o :: r) g.ops := (insertOps_mem o _ _).mpr (.inl (by simp))
+        have : o ∈ insertOps (o :: r) g.ops := insertOps_left o _ _ (by simp)
         rw [hnil] at this; simp at this
     · exact hinv.ops j n0 hn0
   · intro j n0 hn0
@@ -710,13 +779,33 @@ theorem step_old {G A : PE} {g a : Node} {ai : Nat} {opnds : List Src} {ns : Nat
     · refine ⟨l, .mux s ap o, hl, by rw [hopnds']; exact hr, ?_⟩
       simp only [PE.poss, List.mem_append]
       exact .inr ((poss_noMux _ hom l).mpr (leafOf_ext hext hlo))
-  · simp only [coversNode, hlook, hnodeAi, hops', List.all_eq_true, List.contains_eq_mem, decide_eq_true_eq]
-    exact fun o ho => (insertOps_mem o _ _).mpr (.inr ho)
+  · intro S hS hA hgS
+    simp only [coversNode, hlook, hnodeAi, hops', List.all_eq_true, List.contains_eq_mem, decide_eq_true_eq]
+    intro o ho
+    exact insertOps_right o _ _ ho (fun c hc hcc => hS c o (hA ai a ha c hc) (hgS o ho) hcc)
+      (fun c hc hcc => hS c o (hgS c hc) (hgS o ho) hcc)
+  · intro S hA hgS j n0 hn0
+    rw [hnode] at hn0
+    split at hn0
+    · injection hn0 with hn0; subst hn0
+      intro o ho
+      rw [hops'] at ho
+      rcases insertOps_sub o _ _ ho with h | h
+      · exact hA ai a ha o h
+      · exact hgS o h
+    · exact hA j n0 hn0
+  · intro hcu _ j n0 hn0
+    rw [hnode] at hn0
+    split at hn0
+    · injection hn0 with hn0; subst hn0
+      rw [hops']; exact insertOps_classFun _ _ (hcu ai a ha)
+    · exact hcu j n0 hn0
 
 structure YieldOk (G A A' : PE) : Prop where
   inv : Inv A'
   ext : Ext A.switches.length A A'
   route : YieldRoutable A' G
+  nodes : A'.nodes = A.nodes
 
 theorem step_yield {G A : PE} {y : Src} {ns : Nat} (hinv : Inv A)
     (hunc : uncollideList G A [G.yld] [A.yld] A.switches.length = .ok ([y], ns)) :
@@ -732,7 +821,7 @@ theorem step_yield {G A : PE} {y : Src} {ns : Nat} (hinv : Inv A)
       exact ⟨n0, hn0, rfl, fun _ h => h, rfl, fun p t ht => ⟨t, ht, .refl _⟩⟩
     · obtain ⟨t', ht', w⟩ := hrel.wraps 0 A.yld (by simp)
       simp at ht'; subst ht'; exact w
-  refine ⟨⟨hinv.uniq, hinv.ops, ?_, ?_, ?_⟩, hext, ?_⟩
+  refine ⟨⟨hinv.uniq, hinv.ops, ?_, ?_, ?_⟩, hext, ?_, rfl⟩
   · intro j n0 hn0
     exact hswOld _ _ (hinv.swOk j n0 hn0)
   · exact swt_replicate hinv.swt rfl (fun j n0 hn0 => ⟨n0, hn0⟩)
@@ -799,44 +888,66 @@ theorem ext_sw_le {N : Nat} {A A' : PE} (h : Ext N A A') : A.switches.length ≤
   obtain ⟨e, he⟩ := h.sw
   rw [he, List.length_append]; omega
 
+/-- what the fold over the choose ops of `G` establishes besides the invariant: provenance of the offered
+operations, class-uniqueness, and (under the attribute clause) coverage -/
+structure OpsFacts (gs : List Node) (A A' : PE) : Prop where
+  opsIn : ∀ S : List OpCode, OpsIn S A → (∀ g, g ∈ gs → ∀ o, o ∈ g.ops → o ∈ S) → OpsIn S A'
+  cu : CU A → (∀ g, g ∈ gs → ClassFun g.ops) → CU A'
+  cov : ∀ S : List OpCode, ClassFun S → OpsIn S A → (∀ g, g ∈ gs → ∀ o, o ∈ g.ops → o ∈ S) →
+    ∀ g, g ∈ gs → coversNode A' g = true
+
 theorem combineNodes_ok {G : PE} : ∀ (gs : List Node) (A A' : PE), Inv A → (∀ g, g ∈ gs → g.ops ≠ []) →
     combineNodes G gs A = .ok A' →
-    Inv A' ∧ Ext A.switches.length A A' ∧ ∀ g, g ∈ gs → NodeRoutable A' G g ∧ coversNode A' g = true
+    Inv A' ∧ Ext A.switches.length A A' ∧ (∀ g, g ∈ gs → NodeRoutable A' G g) ∧ OpsFacts gs A A'
   | [], A, A', hinv, _, h => by
     simp only [combineNodes, Except.ok.injEq] at h; subst h
-    exact ⟨hinv, Ext.refl _ _, fun g hg => by simp at hg⟩
+    exact ⟨hinv, Ext.refl _ _, fun g hg => by simp at hg, ⟨fun _ h _ => h, fun h _ => h, fun _ _ _ _ g hg => by simp at hg⟩⟩
   | g :: r, A, A', hinv, hops, h => by
     unfold combineNodes at h
     split at h
     · simp at h
     next A1 h1 =>
       have st := combineNode_ok hinv (hops g (by simp)) h1
-      obtain ⟨hinv', hext', hr⟩ := combineNodes_ok r A1 A' st.inv (fun g' hg' => hops g' (by simp [hg'])) h
+      obtain ⟨hinv', hext', hr, hf⟩ := combineNodes_ok r A1 A' st.inv (fun g' hg' => hops g' (by simp [hg'])) h
       have hext1 : Ext A.switches.length A1 A' := hext'.mono (ext_sw_le st.ext)
-      refine ⟨hinv', st.ext.trans hext1, ?_⟩
-      intro g' hg'
-      rcases List.mem_cons.mp hg' with rfl | hg'
-      · exact ⟨nodeRoutable_mono hext' st.route, coversNode_mono hext' st.cov⟩
-      · exact hr g' hg'
+      refine ⟨hinv', st.ext.trans hext1, ?_, ⟨?_, ?_, ?_⟩⟩
+      · intro g' hg'
+        rcases List.mem_cons.mp hg' with rfl | hg'
+        · exact nodeRoutable_mono hext' st.route
+        · exact hr g' hg'
+      · intro S hA hS
+        exact hf.opsIn S (st.opsIn S hA (hS g (by simp))) (fun g' hg' => hS g' (by simp [hg']))
+      · intro hcu hS
+        exact hf.cu (st.cu hcu (hS g (by simp))) (fun g' hg' => hS g' (by simp [hg']))
+      · intro S hSf hA hS g' hg'
+        have hA1 := st.opsIn S hA (hS g (by simp))
+        rcases List.mem_cons.mp hg' with rfl | hg'
+        · exact coversNode_mono hext' (st.cov S hSf hA (hS _ (by simp)))
+        · exact hf.cov S hSf hA1 (fun g'' hg'' => hS g'' (by simp [hg''])) g' hg'
 
-/-- **what a merge establishes**: the invariant is kept, the graph is extended, the merged kernel is
-routable and covered -/
+/-- **what a merge establishes**: the invariant is kept, the graph is extended, the merged graph is routable;
+the offered operations are those of `A` and `G`, class-uniqueness is kept, and `G` is covered PROVIDED all
+operations come from a set in which the class determines the operation (finding DC20a otherwise) -/
 theorem combine_ok {A G A' : PE} (hinv : Inv A) (hops : ∀ g, g ∈ G.nodes → g.ops ≠ [])
     (h : combine A G = .ok A') :
-    Inv A' ∧ Ext A.switches.length A A' ∧ Routable A' G ∧ covers A' G = true := by
+    Inv A' ∧ Ext A.switches.length A A' ∧ Routable A' G ∧ OpsFacts G.nodes A A' := by
   unfold combine at h
   split at h
   · simp at h
   · split at h
     · simp at h
     next A1 h1 =>
-      obtain ⟨hinv1, hext1, hr1⟩ := combineNodes_ok G.nodes A A1 hinv hops h1
+      obtain ⟨hinv1, hext1, hr1, hf⟩ := combineNodes_ok G.nodes A A1 hinv hops h1
       have sy := combineYield_ok hinv1 h
       have hext2 : Ext A.switches.length A1 A' := sy.ext.mono (ext_sw_le hext1)
-      refine ⟨sy.inv, hext1.trans hext2, ⟨?_, sy.route⟩, ?_⟩
+      refine ⟨sy.inv, hext1.trans hext2, ⟨?_, sy.route⟩, ⟨?_, ?_, ?_⟩⟩
       · intro c k hk
-        exact nodeRoutable_mono sy.ext (hr1 k (List.mem_of_getElem? hk)).1
-      · simp only [covers, List.all_eq_true]
-        exact fun k hk => coversNode_mono sy.ext (hr1 k hk).2
+        exact nodeRoutable_mono sy.ext (hr1 k (List.mem_of_getElem? hk))
+      · intro S hA hS j n hn
+        rw [sy.nodes] at hn; exact hf.opsIn S hA hS j n hn
+      · intro hcu hS j n hn
+        rw [sy.nodes] at hn; exact hf.cu hcu hS j n hn
+      · intro S hSf hA hS g hg
+        exact coversNode_mono sy.ext (hf.cov S hSf hA hS g hg)
 
 end SnaxVerif.Phs
